@@ -22,7 +22,9 @@ LEVEL_TEXT = ('Decides clauses C20-a..e: YEAR_DELTAS (401 entries), YEAR_TO_FLAG
               'every byte itoa pushes is an ASCII digit, by interval analysis of its loop-free body (branch refinement on the power-of-ten guards, and n - C*(n/C) kn'
               'own to be n mod C): the digit written at position k is bounded by 9 because n < 10^(k+1) holds there (loops driven by a +/-1 counter are analysed per '
               'counter value -- trace partitioning -- so that 10^counter is a constant in each partition; a form the analysis cannot bound is reported as not decided'
-              ', not as a violation). Decides these clauses, not the day/year arithmetic or the digit extraction for all inputs.')
+              ", not as a violation). C20-g: each digit byte written by into_imf_fixdate is b'0' plus a closed arithmetic term over the field value x (the innermost "
+              'value converted to u8) that equals x/10, x%10 or x for every x in 0..=99, tens then units in pairs (term comparison over the finite domain, like the c'
+              'alendar tables). Decides these clauses, not the day/year arithmetic or the digit extraction for all inputs.')
 
 
 def run(ck, progs):
@@ -37,6 +39,7 @@ def run(ck, progs):
         ck.guard("C20-d ORDER reduce before truncating", lambda: c20d(ck, prog))
         ck.guard("C20-e BOUND table index range", lambda: c20e(ck, prog))
         ck.guard("C20-f RANGE decimal digits", lambda: c20f(ck, prog))
+        ck.guard("C20-g TABLE two-digit fields", lambda: c20g(ck, prog))
     ck.config = None
 
 
@@ -641,3 +644,128 @@ def c20f(ck, prog):
           "" if ok else ("a byte pushed by itoa lies in %s, not in b'0'..=b'9': for some n the rendering contains a non-digit (the step's guard admits an n one power of ten too large, or the digit is not reduced)" % (list(bad[0][1]) if bad[0][1] else "an unbounded range") if bad else "push calls of itoa not found (%d)" % n),
           how="%d pushes, each byte within [48, 57]" % n)
     ck.floor(R, "pushes of itoa analysed", n, 2)      # (20 in the unrolled form, 2 call sites in a looping form)
+
+
+def _expr_tree(f, op, depth=12):
+    """arithmetic expression behind an operand: ('k', v) | ('leaf', id) | ('bin', op, a, b) | ('cast', ty, a)"""
+    if depth <= 0:
+        return ("leaf", "deep")
+    if op[0] == "k":
+        try:
+            return ("k", int(op[1].get("v")))
+        except (TypeError, ValueError):
+            return ("leaf", "const?")
+    if op[0] not in ("c", "m"):
+        return ("leaf", "?")
+    local, projs = op[1]
+    if projs and not (len(projs) == 1 and projs[0][0] == "f" and projs[0][1] == 0):
+        return ("leaf", "place:%s%s" % (local, projs))
+    sd = f.single_def(local)
+    if sd is None or 1 <= local <= f.argc:
+        return ("leaf", "local:%d" % local)
+    if sd[2] == "call":
+        return ("leaf", "call@%d" % sd[0])
+    if sd[2] != "assign":
+        return ("leaf", "local:%d" % local)
+    r = sd[3]["r"]
+    if r[0] == "use":
+        return _expr_tree(f, r[1], depth - 1)
+    if r[0] == "bin":
+        return ("bin", r[1].replace("WithOverflow", ""), _expr_tree(f, r[2], depth - 1), _expr_tree(f, r[3], depth - 1))
+    if r[0] == "cast":
+        return ("cast", r[3], _expr_tree(f, r[2], depth - 1))
+    return ("leaf", "local:%d" % local)
+
+
+def _collapse(t):
+    """the field value x of a two-digit field is the innermost value converted to u8 (`(year / 100) as u8`, `day as u8`): such a
+    sub-term becomes one leaf, so that the digit expressions are read as functions of x and not of the year"""
+    if t[0] == "bin":
+        a, ca = _collapse(t[2])
+        b, cb = _collapse(t[3])
+        return ("bin", t[1], a, b), (ca or cb)
+    if t[0] == "cast":
+        a, ca = _collapse(t[2])
+        if t[1] == "u8" and not ca and _leaves(a):
+            return ("leaf", "u8(%s)" % (sorted(_leaves(a)),)), True
+        return ("cast", t[1], a), ca
+    return t, False
+
+
+def _leaves(t):
+    if t[0] == "leaf":
+        return {t[1]}
+    if t[0] == "bin":
+        return _leaves(t[2]) | _leaves(t[3])
+    if t[0] == "cast":
+        return _leaves(t[2])
+    return set()
+
+
+def _eval(t, x):
+    if t[0] == "k":
+        return t[1]
+    if t[0] == "leaf":
+        return x
+    if t[0] == "cast":
+        v = _eval(t[2], x)
+        bits = {"u8": 8, "u16": 16, "u32": 32, "u64": 64, "usize": 64, "i32": 32, "i64": 64, "u128": 128}.get(t[1])
+        return v if v is None or bits is None else v % (1 << bits)
+    a, b = _eval(t[2], x), _eval(t[3], x)
+    if a is None or b is None:
+        return None
+    op = t[1]
+    try:
+        return {"Add": a + b, "Sub": a - b, "Mul": a * b, "Div": a // b if b else None, "Rem": a % b if b else None, "Shr": a >> b, "Shl": a << b,
+                "BitAnd": a & b, "BitOr": a | b}.get(op)
+    except Exception:
+        return None
+
+
+def c20g(ck, prog):
+    """`HH`, `MM`, `SS`, the two halves of the year and the day of an IMF-fixdate are two-digit decimal fields: of the digit
+    bytes into_imf_fixdate writes (`b'0' + E`), each E, read as an arithmetic expression over one value x, is compared entry
+    by entry over x = 0..99 with x / 10 (tens), x % 10 (units) or x itself (a value already known to be a single digit):
+    the expressions are small closed terms (divisions, remainders, shifts, multiplications by constants), so this is a table
+    comparison like C20-a, not an execution of ohkami code; a multiply-shift that is exact only up to 68 differs at 69."""
+    R = "C20-g TABLE two-digit fields"
+    f0 = prog.one(r"UTCDateTime::into_imf_fixdate$")
+    # the digit bytes may be produced in small local helpers (`w.two_digits(n)` of a writer type local to the function)
+    from .lib.reach import Reach
+    fam = [g for g in Reach(prog, [f0]).reached.values() if g.crate == f0.crate and g.key.startswith("ohkami_lib::time")]
+    n, kinds = 0, []
+    sites = []
+    for f in sorted(fam, key=lambda g: g.key != f0.key):
+        for c in sorted(f.calls(), key=lambda c: (len(f.dom_chain(c.bb)), c.bb)):
+            for a in c.args[1:]:
+                t = _expr_tree(f, a)
+                if t[0] == "bin" and t[1] == "Add" and (t[2] == ("k", 48) or t[3] == ("k", 48)):
+                    sites.append((f, c, t))
+    for f, c, t in sites:
+        e = t[3] if t[2] == ("k", 48) else t[2]
+        e, _c = _collapse(e)
+        lv = _leaves(e)
+        n += 1
+        if len(lv) != 1:
+            kinds.append(("?", c, "the digit is computed from %d values" % len(lv)))
+            continue
+        vals = [_eval(e, x) for x in range(100)]
+        if vals == [x // 10 for x in range(100)]:
+            kinds.append(("tens", c, tuple(lv)[0]))
+        elif vals == [x % 10 for x in range(100)]:
+            kinds.append(("units", c, tuple(lv)[0]))
+        elif vals[:10] == list(range(10)):
+            kinds.append(("single", c, tuple(lv)[0]))
+        else:
+            first = next((x for x in range(100) if vals[x] not in (x // 10, x % 10)), None)
+            kinds.append(("other", c, "differs from x/10 and x%%10, first at x = %s (gives %s)" % (first, vals[first] if first is not None else "?")))
+    bad = [k for k in kinds if k[0] in ("other", "?")]
+    f = f0
+    ok = not bad and n >= 3
+    ck.ob(R, "imf:digit-expressions", ok, f.loc(None),
+          "" if ok else ("a digit of the IMF-fixdate is not the tens or the units digit of its field: %s" % bad[0][2] if bad else "only %d digit writes found" % n),
+          how="%d digit writes: %s" % (n, ", ".join(k[0] for k in kinds)))
+    # tens and units come in pairs
+    seq = [k[0] for k in kinds if k[0] in ("tens", "units")]
+    okp = len(seq) % 2 == 0 and all(seq[i] == "tens" and seq[i + 1] == "units" for i in range(0, len(seq), 2))
+    ck.ob(R, "imf:tens-then-units", okp, f.loc(None), "" if okp else "the two-digit fields are not written as tens then units (%s)" % seq, how="%d pairs" % (len(seq) // 2))
